@@ -250,7 +250,7 @@ class RefTransform:
         return np.ldexp(z[: self.n], -self.w.vw)
 
     def obj(self, z):
-        return np.ldexp(self.p.obj(self.x_user(z)), self.w.ow)
+        return np.ldexp(float(self.p.obj(self.x_user(z))), self.w.ow)
 
     def obj_grad(self, z):
         g = np.asarray(self.p.obj_grad(self.x_user(z)), dtype=float)
